@@ -2,8 +2,7 @@
   C11 — property theorems about the worker-pool transition system of Model/C11.lean
   (the functions `stepFn`, `exec`, `drain`, `runToEnd` are the ones the driver executes).
 -/
-import Gotree.Lemmas.C11
-import Gotree.Gen.C11Goroutines
+import Gotree.Lemmas.C11Pools
 
 namespace Gotree.C11
 
@@ -152,6 +151,40 @@ theorem pool_thread_count_independent (F : PoolFacts) (hF : F.exitsWithoutDone =
     s.out.Perm s₁.out :=
   (pool_normal_form_complete F hF f stops w hw cap hcap inp hE s hR hT).2.trans
     (pool_normal_form_complete F hF f stops 1 (Nat.le_refl 1) cap₁ hcap₁ inp hE s₁ hR₁ hT₁).2.symm
+
+/-- The single-threaded run IS the sequential computation: with one worker, every maximal run of a
+    recording pool (whatever the interleaving with the producer and the closer) delivers `f x` for the
+    items of the stream in the order of the stream. -/
+theorem pool_single_worker_sequential (F : PoolFacts) (hF : F.exitsWithoutDone = [] ∧ F.unsyncSharedWrites = [] ∧ F.producerLeaks = [])
+    (hE : F.earlyExits = []) (f : α → β) (stops : α → Bool) (cap : Nat) (hcap : 1 ≤ cap) (inp : List α) (s : PState α β)
+    (hR : Reachable F f stops (init 1 cap inp) s) (hT : Terminal F f stops s) :
+    s.closed = true ∧ s.out.reverse = inp.map f := by
+  obtain ⟨hc, _, _, _, _, hinp, hde, _, hout⟩ := pool_normal_form_general F hF f stops 1 cap hcap inp s hR hT
+  have hI := reachable_inv F f stops 1 cap inp s hR
+  have hC := reachable_invClean F ⟨hF.1, hF.2.1⟩ f stops 1 cap inp s hR
+  have hO := reachable_ordInv F hE f stops cap inp s hR
+  have hd : s.dropped = [] := hde hE
+  have hi : s.inp ++ s.pending = [] := by
+    cases hii : s.inp ++ s.pending with
+    | nil => rfl
+    | cons x r =>
+      have := hinp (by simp [hii])
+      rw [hd] at this
+      simp at this
+  have hi1 : s.inp = [] := (List.append_eq_nil_iff.mp hi).1
+  have hi2 : s.pending = [] := (List.append_eq_nil_iff.mp hi).2
+  -- the only worker is gone
+  have hgone := terminal_workers_gone F hF.2.2 f stops 1 cap hcap inp s hI hT
+  have hheld : heldL s.workers = [] := by
+    match hw : s.workers, hO.one with
+    | [p], _ =>
+      have := hgone p (by rw [hw]; simp)
+      rcases this with h | h <;> subst h <;> simp [heldL, Phase.items]
+  have hord := hO.ord
+  rw [hheld, hi1, hi2] at hord
+  simp at hord
+  refine ⟨hc, ?_⟩
+  rw [hout, ← List.map_reverse, hord]
 
 /-- Safety at EVERY reachable state (not only at the end) of a clean pool: what the consumer has
     received so far is exactly `f` of the items delivered so far (one result per item, computed from
@@ -419,12 +452,6 @@ theorem table_hashmap_writes_locked :
     (Gotree.Gen.C11.hashMapWrites.filter (fun mw => match mw.2.sync with | .mutex => false | _ => true)).map (·.2.line) = [] := by
   decide
 
-/-- the pools as extracted, each with the goroutine that feeds it: the commands read the trees with
-    `ReadMultiTrees`; TBE feeds its workers the reference branches -/
-def comparePool : PoolFacts := Compare_worker0.factsWithProducer ReadMultiTrees_go0
-def compareWeightedPool : PoolFacts := CompareWeighted_worker0.factsWithProducer ReadMultiTrees_go0
-def fbpPool : PoolFacts := FBP_worker0.factsWithProducer ReadMultiTrees_go0
-def tbePool : PoolFacts := TBE_worker0.factsWithProducer TBE_go0
 
 /-- table decision: the per-item pools have exactly the shape the driver runs (`shapeRecord`), and the
     FBP pool is a clean pool whose workers have early exits (the character of `shapeStop`) -/
@@ -446,6 +473,15 @@ theorem table_sends_on_closed_channel :
     CompareWeighted_worker0.sends.all (fun s => CompareWeighted_closer0.closes.any (fun c => c.1 == s.1)) = true ∧
     FBP_worker0.sends.all (fun s => FBP_closer0.closes.any (fun c => c.1 == s.1)) = true ∧
     TBE_worker0.sends = [] := by decide
+
+/-- table decision: the only calls involving captured variables that the extractor did NOT analyse
+    are the reviewed ones: bit-set comparison in the external bitset module (read-only), the quartet
+    comparison beyond the depth limit (not reachable from these pools), and the parsers the reader
+    goroutine hands its own reader to.  A new entry here means: review it. -/
+theorem table_unfollowed_reviewed :
+    (Gotree.Gen.C11.goroutines.flatMap (·.unfollowed)).all (fun u =>
+      ["(*github.com/fredericlemoine/bitset.BitSet).EqualOrComplement(", "(*tree.Quartet).Compare(", "io/"].any
+        (fun p => (u.toList.take p.length) == p.toList)) = true := by decide
 
 /-- ★ instantiated: for the pools of `tree.Compare`, `tree.CompareWeighted` and the `support.TBE` fan-out AS
     EXTRACTED FROM THE SOURCE (workers and the goroutine feeding them), every maximal run (any `w ≥ 1`,
@@ -475,8 +511,6 @@ theorem driver_runs_extracted_compare (f : α → β) (stops : α → Bool) (w :
   rw [table_shapes.1] at h
   exact h
 
-/-- a pool with one early exit that reaches `Done`: its shape is the `shapeStop` the driver runs for FBP -/
-def stopFacts : PoolFacts := ⟨[⟨.rangeEnd, 0, true⟩, ⟨.ret, 0, true⟩], [], []⟩
 
 /-- table decision: the extracted FBP pool generates the same transition relation as `shapeStop`
     (same flags; all of its early exits reach `Done`; it has some) -/
@@ -512,16 +546,12 @@ theorem driver_runs_extracted_fbp (f : α → β) (stops : α → Bool) (w : Nat
 
 /-! ## The repaired defects, on the shapes the pinned tree had -/
 
-/-- FBP before 1f22b20 (F16): `wg.Done()` after the loop, `return` on an erroneous tree inside it -/
-def fbpPinned : PoolFacts := ⟨[⟨.rangeEnd, 83, true⟩, ⟨.ret, 54, false⟩, ⟨.ret, 58, false⟩, ⟨.ret, 62, false⟩], [], []⟩
 
 theorem fbp_pinned_fails :
     ∃ (inp : List Nat) (s : PState Nat Nat), Reachable fbpPinned id (fun _ => true) (init 1 1 inp) s ∧
       Terminal fbpPinned id (fun _ => true) s ∧ s.closed = false :=
   pool_leak_deadlocks fbpPinned (by decide) id (fun _ => true) 0 rfl
 
-/-- CompareWeighted before 800c0a0 (F18): `compEdges` declared outside the goroutines -/
-def compareWeightedPinned : PoolFacts := ⟨[⟨.rangeEnd, 1003, true⟩], [⟨"compEdges", "assign", .none, 933⟩], []⟩
 
 /-- two workers, two trees: the record of tree 1 is computed from the edges of tree 2 -/
 theorem compareWeighted_pinned_fails :
@@ -534,9 +564,6 @@ theorem compareWeighted_pinned_fails :
   have := hp.mem_iff (a := 1)
   simp at this
 
-/-- ReadMultiTrees with a `return` before its `close(compTrees)` (own breakage B11): nothing ever closes
-    the input channel, the workers wait forever -/
-def readerPinned : PoolFacts := ⟨[⟨.rangeEnd, 875, true⟩], [], [124]⟩
 
 theorem reader_leak_fails :
     ∃ (s : PState Nat Nat), Reachable readerPinned id (fun _ => false) (init 1 1 []) s ∧
